@@ -316,6 +316,63 @@ func (w *world) replicatedCommit(g int64, forX bool, op string, seed int64) *typ
 	return types.NewCommit(g, round, id, sigs)
 }
 
+// signedInvalid: the canonical block of height g with one header field changed to something the
+// node's state does not prescribe (optionally also carrying a well-formed piece of evidence), and a
+// genuine commit for it by the validators of g — all of them, or exactly a quorum.  The liars of this
+// class hold the validators' keys.
+func (w *world) signedInvalid(g int64, op string, withEvidence, quorumOnly bool) (*types.Block, *types.Commit) {
+	rec := w.rec(g)
+	vals := rec.StateBefore.Validators
+	nb := cloneBlock(rec.Block)
+	switch op {
+	case "apphash":
+		nb.AppHash = garbage(g+11, 32)
+	case "resultshash":
+		nb.LastResultsHash = garbage(g+12, 32)
+	case "consensushash":
+		nb.ConsensusHash = garbage(g+13, 32)
+	case "time":
+		nb.Time = nb.Time.Add(time.Second)
+	case "valhash":
+		nb.ValidatorsHash = garbage(g+14, 32)
+	case "nextvalhash":
+		nb.NextValidatorsHash = garbage(g+15, 32)
+	case "proposer":
+		nb.ProposerAddress = garbage(g+16, 20)
+	case "lastblockid":
+		nb.LastBlockID = otherBlockID(nb.LastBlockID)
+	default:
+		nb.Version.App++
+	}
+	if withEvidence {
+		a := w.c.SignVote(vals, 0, tmproto.PrecommitType, g-1, 0, rec.BlockID, w.c.VoteTime(g-1, 0))
+		b := w.c.SignVote(vals, 0, tmproto.PrecommitType, g-1, 0, otherBlockID(rec.BlockID), w.c.VoteTime(g-1, 0))
+		ev := types.NewDuplicateVoteEvidence(a, b, rec.Block.Time, vals)
+		if ev != nil {
+			nb.Evidence.Evidence = types.EvidenceList{ev}
+			nb.EvidenceHash = nb.Evidence.Evidence.Hash()
+		}
+	}
+	id := blockIDOf(nb)
+	var total int64
+	all := make([]int, vals.Size())
+	for i, v := range vals.Validators {
+		total += v.VotingPower
+		all[i] = i
+	}
+	signers := map[int]bool{}
+	if quorumOnly {
+		signers, _ = subsetWithPower(rand.New(rand.NewSource(g)), vals, all, 2*total/3+1, true)
+	}
+	cm := w.c.SignCommit(vals, g, 0, id, func(i int, _ *types.Validator) types.BlockIDFlag {
+		if quorumOnly && !signers[i] {
+			return types.BlockIDFlagAbsent
+		}
+		return types.BlockIDFlagCommit
+	}, func(i int) time.Time { return w.c.VoteTime(g, i) })
+	return nb, cm
+}
+
 func blockIDOf(b *types.Block) types.BlockID {
 	return types.BlockID{Hash: b.Hash(), PartSetHeader: b.MakePartSet(types.BlockPartSizeBytes).Header()}
 }
@@ -361,6 +418,12 @@ func (w *world) build(p *PeerSpec, h int64) (blk *types.Block, noBlock, silent b
 		return w.wrongTxsBlock(h), false, false
 	case "nilBackedFork":
 		return withLastCommit(w.rec(h).Block, w.round0Commit(h-1, blockIDOf(w.wrongTxsBlock(h-1)), b.Arg)), false, false
+	case "signedInvalid":
+		nb, _ := w.signedInvalid(h, b.Op, b.Arg == 1, b.Slot == 1)
+		return nb, false, false
+	case "signedCarrier":
+		_, cm := w.signedInvalid(h-1, b.Op, b.Arg == 1, b.Slot == 1)
+		return withLastCommit(w.rec(h).Block, cm), false, false
 	case "replicatedFork":
 		return withLastCommit(w.rec(h).Block, w.replicatedCommit(h-1, true, b.Op, b.Arg)), false, false
 	case "replicatedWeak":
